@@ -691,3 +691,65 @@ def w14(facts, tier):
                  f"{key}: order-altering operation(s) {sorted(set(bad))[:3]}: elements are no longer written/rebuilt in sequence order "
                  f"(equal values give different bytes; a round trip can return a permuted sequence)" if bad
                  else "elements are written / appended in sequence order")
+
+
+# ---------------------------------------------------------------------------------------------
+# K4 (C07/C14): the decrypting reader consumes what it hands out
+
+def canon_expr(n):
+    n = peel_block(peel(n)) if isinstance(n, dict) else n
+    if not isinstance(n, dict):
+        return n
+    k = n.get("k")
+    if k == "Var":
+        return ("var", n["v"].split("#")[0])
+    if k == "Lit":
+        return ("lit", n.get("int", n.get("str")))
+    if k == "Field":
+        return ("field", canon_expr(n["e"]), n["f"])
+    if k == "Call":
+        return ("call", callee(n), tuple(canon_expr(a) for a in n["args"]))
+    if k == "Bin":
+        return ("bin", n["op"], canon_expr(n["l"]), canon_expr(n["r"]))
+    if k == "Cast":
+        return canon_expr(n["e"])
+    return ("?", k)
+
+
+@rule("K4", ["C07", "C14", "C08"], floor=2, doc="CryptoReader::read: every block that copies authenticated plaintext out of its internal buffer into the caller's buffer "
+      "advances the read offset by exactly the number of bytes it reports (otherwise the same plaintext is handed out again)")
+def k4(facts, tier):
+    f = None
+    for fid, g in facts.fns.items():
+        if fid.startswith("<savefile::crypto::CryptoReader<") and fid.endswith("as std::io::Read>::read"):
+            f = g
+    if f is None:
+        return
+    n = 0
+    for b in walk(f["body"]):
+        if b.get("k") != "Block":
+            continue
+        copies = []
+        for s in b["stmts"]:
+            e = s.get("e") if s["k"] == "ExprS" else None
+            if e and e.get("k") == "Call" and (callee(e) or "").endswith(("clone_from_slice", "copy_from_slice")):
+                src_mentions_buf = any(y.get("k") == "Field" and y["f"] == "buf" for y in walk(e["args"][1]))
+                if src_mentions_buf:
+                    copies.append(e)
+        if not copies:
+            continue
+        n += 1
+        advance = ret = None
+        for s in b["stmts"]:
+            e = s.get("e") if s["k"] == "ExprS" else None
+            if e and e.get("k") == "AssignOp" and e["op"] in ("Add", "AddAssign") and peel(e["l"]).get("k") == "Field" and peel(e["l"])["f"] == "offset":
+                advance = canon_expr(e["r"])
+            if e and e.get("k") == "Return" and e.get("e") is not None:
+                r = peel_block(e["e"])
+                if r.get("k") == "Adt" and r.get("variant") == "Ok" and r["fields"]:
+                    ret = canon_expr(r["fields"][0]["e"])
+        ok = advance is not None and ret is not None and advance == ret
+        yield ob(["C07", "C14", "C08"], "K4", f"copy-out#{n}", "pass" if ok else "violation", where(f, copies[0]),
+                 "offset advanced by the number of bytes returned" if ok else
+                 f"CryptoReader::read copies plaintext to the caller and returns {ret} but advances its offset by {advance}: the same bytes are "
+                 f"delivered again, so a file cut at a chunk boundary can load as complete data")
